@@ -1,85 +1,3 @@
-// C09 harness, serializer stack: igris/serialize/{serializer,serialize_protocol,
-// serialize_scheme,serialize_storage,serialize_archive}.h
-#include "common.h"
-#include <vector>
-#include <string>
-#include <igris/serialize/serialize_archive.h>
-
-typedef igris::serializer<igris::string_storage, igris::binary_protocol> WriterS;
-typedef igris::deserializer<igris::deserialize_buffer_storage, igris::binary_protocol> ReaderS;
-typedef type_h<WriterS, ReaderS> HS;
-
-template <class T> struct hs : HS
-{
-    void enc(WriterS &w, const DV &d) override
-    {
-        T v = conv<T>::from(d);
-        w.serialize(v);
-    }
-    DV dec(ReaderS &r) override
-    {
-        T v = r.template deserialize<T>();
-        return conv<T>::to(v);
-    }
-    bytes enc_api(const DV &d) override
-    {
-        T v = conv<T>::from(d);
-        std::string s = igris::serialize(v);
-        return bytes(s.begin(), s.end());
-    }
-    DV dec_api(const bytes &in) override
-    {
-        std::string s(in.begin(), in.end());
-        T v = igris::deserialize<T>(s);
-        return conv<T>::to(v);
-    }
-};
-
-struct stack_s_impl : stack_iface
-{
-    std::vector<std::string> order;
-    std::map<std::string, std::unique_ptr<HS>> reg;
-    template <class T> void add()
-    {
-        std::string d = conv<T>::desc();
-        if (!reg.count(d)) order.push_back(d);
-        reg[d].reset(new hs<T>());
-    }
-    stack_s_impl()
-    {
-        using std::vector;
-        add<uint8_t>(); add<int8_t>(); add<uint16_t>(); add<int16_t>(); add<uint32_t>();
-        add<int32_t>(); add<uint64_t>(); add<int64_t>(); add<float>(); add<double>();
-        add<vector<uint8_t>>(); add<vector<uint16_t>>(); add<vector<int32_t>>(); add<vector<uint64_t>>();
-        add<vector<float>>(); add<vector<double>>();
-        add<vector<vector<uint8_t>>>(); add<vector<vector<vector<uint16_t>>>>();
-        add<R1>(); add<R2>(); add<vector<R1>>(); add<vector<R2>>(); add<vector<vector<R1>>>();
-    }
-    std::vector<std::string> descs() override { return order; }
-    bool has(const std::string &d) override { return reg.count(d) != 0; }
-    bytes encode_seq(const std::vector<std::string> &ds, const std::vector<DV> &vals) override
-    {
-        igris::string_storage st;
-        WriterS w(st);
-        for (size_t i = 0; i < ds.size(); i++) reg.at(ds[i])->enc(w, vals[i]);
-        const std::string &out = st.storage();
-        return bytes(out.begin(), out.end());
-    }
-    std::vector<DV> decode_seq(const std::vector<std::string> &ds, const uint8_t *p, size_t n, size_t &consumed) override
-    {
-        igris::deserialize_buffer_storage st(igris::buffer((const char *)p, n));
-        ReaderS r(st);
-        std::vector<DV> out;
-        for (auto &d : ds) out.push_back(reg.at(d)->dec(r));
-        consumed = n - (size_t)st.avail();
-        return out;
-    }
-    bytes encode_api(const std::string &d, const DV &v) override { return reg.at(d)->enc_api(v); }
-    DV decode_api(const std::string &d, const bytes &in) override { return reg.at(d)->dec_api(in); }
-};
-
-stack_iface &stack_s()
-{
-    static stack_s_impl s;
-    return s;
-}
+// serializer stack, part 1 of 2 (see s.inc)
+#define C09_S_PART 1
+#include "s.inc"
